@@ -62,11 +62,15 @@ cfg_64!(
     ) -> (bool, usize) {
         size /= 5;
         if size == 0 {
+            #[cfg(num_bigint_verif)]
+            crate::verif_probe::hit(1);
             return (false, 0);
         }
 
         let mut c: u8;
         let mut idx = 0;
+        #[cfg(num_bigint_verif)]
+        crate::verif_probe::hit(0);
 
         asm!(
             // Clear the carry flag
@@ -137,6 +141,10 @@ cfg_64!(
             options(nostack),
         );
 
+        #[cfg(num_bigint_verif)]
+        if c > 0 {
+            crate::verif_probe::hit(2);
+        }
         (c > 0, idx)
     }
 );
@@ -174,18 +182,28 @@ pub(super) fn __add2(a: &mut [BigDigit], b: &[BigDigit]) -> BigDigit {
     let mut carry = c as u8;
 
     for (a, b) in a_lo[done..].iter_mut().zip(b[done..].iter()) {
+        #[cfg(num_bigint_verif)]
+        crate::verif_probe::hit(3);
         carry = adc(carry, *a, *b, a);
     }
 
     if carry != 0 {
+        #[cfg(num_bigint_verif)]
+        crate::verif_probe::hit(4);
         for a in a_hi {
             carry = adc(carry, *a, 0, a);
             if carry == 0 {
                 break;
             }
+            #[cfg(num_bigint_verif)]
+            crate::verif_probe::hit(5);
         }
     }
 
+    #[cfg(num_bigint_verif)]
+    if carry != 0 {
+        crate::verif_probe::hit(6);
+    }
     carry as BigDigit
 }
 
